@@ -242,7 +242,7 @@ theorem takeSkip_filter (skip : List Nat) (reqs : List Request) (κ : Nat) :
           rw [List.count_pos_iff]; simpa using hs
         subst hk
         obtain ⟨m, hm⟩ : ∃ m, skip.count r.key = m + 1 := ⟨skip.count r.key - 1, by omega⟩
-        simp [List.filter_cons, List.count_erase_self, hm]
+        simp [List.count_erase_self, hm]
       · have hbeq : (r.key == κ) = false := by simpa using hk
         simp only [List.filter_cons, hbeq, Bool.false_eq_true, if_false]
         rw [List.count_erase_of_ne (fun h => hk h.symm)]
@@ -252,7 +252,7 @@ theorem takeSkip_filter (skip : List Nat) (reqs : List Request) (κ : Nat) :
       by_cases hk : r.key = κ
       · subst hk
         have hz : skip.count r.key = 0 := by rw [List.count_eq_zero]; exact hs'
-        simp [List.filter_cons, ih, hz]
+        simp [ih, hz]
       · have hbeq : (r.key == κ) = false := by simpa using hk
         simp only [List.filter_cons, hbeq, Bool.false_eq_true, if_false, ih]
 
